@@ -17,7 +17,7 @@ ALL = ["C%02d" % i for i in range(1, 21)]
 
 
 def sh(cmd, cwd=None, timeout=3600):
-    p = subprocess.run(cmd, shell=True, cwd=cwd, env=ENV, stdout=subprocess.PIPE, stderr=subprocess.STDOUT, text=True, timeout=timeout)
+    p = subprocess.run(cmd, shell=True, cwd=cwd, env=ENV, stdout=subprocess.PIPE, stderr=subprocess.STDOUT, text=True, errors='replace', timeout=timeout)
     return p.returncode, p.stdout
 
 
